@@ -21,6 +21,7 @@ type EvalCtx struct {
 	pkg   *types.Package
 	ghostOld map[string]string
 	depth int
+	inQuant bool
 }
 
 func (e *EvalCtx) fail(format string, a ...interface{}) Val {
@@ -134,6 +135,9 @@ func (e *EvalCtx) ident(name string) Val {
 			return e.object(obj)
 		}
 	}
+	if name == "TZERO" {
+		return Val{K: KInt, T: "TZERO", Typ: e.c.eng.timeType}
+	}
 	if name == "MaxInt32" {
 		return intVal("2147483647")
 	}
@@ -186,8 +190,20 @@ func (e *EvalCtx) bin(n EBin) Val {
 		return Val{K: KInt, T: "(- " + a.T + " " + b.T + ")", Typ: a.Typ}
 	case "*":
 		return Val{K: KInt, T: "(* " + a.T + " " + b.T + ")", Typ: a.Typ}
-	case "/": // mathematical floor division on non-negative operands; truncated otherwise like Go
-		return Val{K: KInt, T: fmt.Sprintf("(ite (>= %s 0) (div %s %s) (- (div (- %s) %s)))", a.T, a.T, b.T, a.T, b.T), Typ: a.Typ}
+	case "/": // truncated like Go; for a symbolic divisor the quotient is named and its defining facts stated
+		q := fmt.Sprintf("(ite (>= %s 0) (div %s %s) (- (div (- %s) %s)))", a.T, a.T, b.T, a.T, b.T)
+		if !isConstTerm(b.T) && !e.inQuant {
+			key := "divw:" + a.T + "/" + b.T
+			qq, ok := e.c.divw[key]
+			if !ok {
+				qq = e.c.fresh("cq", "Int")
+				e.c.divw[key] = qq
+				e.c.axiom(fmt.Sprintf("(= %s %s)", qq, q))
+				e.c.axiom(fmt.Sprintf("(=> (and (> %s 0) (>= %s 0)) (and (<= (* %s %s) %s) (< %s (+ (* %s %s) %s))))", b.T, a.T, b.T, qq, a.T, a.T, b.T, qq, b.T))
+			}
+			q = qq
+		}
+		return Val{K: KInt, T: q, Typ: a.Typ}
 	case "%":
 		q := fmt.Sprintf("(ite (>= %s 0) (div %s %s) (- (div (- %s) %s)))", a.T, a.T, b.T, a.T, b.T)
 		return Val{K: KInt, T: fmt.Sprintf("(- %s (* %s %s))", a.T, b.T, q), Typ: a.Typ}
@@ -222,6 +238,11 @@ func (e *EvalCtx) ghostField(ownerKey, f string) *GhostField {
 }
 
 func sortVal(srt, t string) Val {
+	if strings.HasPrefix(srt, "(Array ") {
+		inner := strings.TrimSuffix(strings.TrimPrefix(srt, "(Array "), ")")
+		idx, el := splitSort(inner)
+		return Val{K: KArr, T: t, Len: idx, Cap: el}
+	}
 	switch srt {
 	case "Bool":
 		return boolVal(t)
@@ -251,6 +272,9 @@ func (e *EvalCtx) field(x Val, f string) Val {
 			for i := 0; i < st.NumFields(); i++ {
 				if st.Field(i).Name() == f {
 					ptr := Val{K: KPtr, T: x.T, Idx: x.Idx, Typ: types.NewPointer(st.Field(i).Type()), Key: e.c.addrKey(x) + "." + f}
+					if isOpaqueExternal(st.Field(i).Type()) {
+						return ptr // opaque library object embedded by value: denote it by its address (ghost fields hang off it)
+					}
 					return e.c.load(e.p, e.heap, ptr, st.Field(i).Type())
 				}
 			}
@@ -293,8 +317,38 @@ func (e *EvalCtx) field(x Val, f string) Val {
 	return e.fail("field %s on %v", f, x)
 }
 
+func splitSort(s string) (string, string) {
+	s = strings.TrimSpace(s)
+	depth := 0
+	for i, ch := range s {
+		switch ch {
+		case '(':
+			depth++
+		case ')':
+			depth--
+		case ' ':
+			if depth == 0 {
+				return s[:i], strings.TrimSpace(s[i+1:])
+			}
+		}
+	}
+	return s, ""
+}
+
+func idxTerm(i Val, srt string) string {
+	if i.K == KIface {
+		if srt == "String" {
+			return i.IStr
+		}
+		return i.IVal
+	}
+	return i.T
+}
+
 func (e *EvalCtx) index(x, i Val) Val {
 	switch x.K {
+	case KArr:
+		return sortVal(x.Cap, fmt.Sprintf("(select %s %s)", x.T, idxTerm(i, x.Len)))
 	case KSlice:
 		et := elemTypeOf(x.Typ)
 		if et == nil {
@@ -344,6 +398,7 @@ func (e *EvalCtx) quant(n EQuant) Val {
 	}
 	env[n.Var] = bv
 	se := e.sub(env)
+	se.inQuant = true
 	body := se.asBool(se.eval(n.Body))
 	pat := ""
 	if len(n.Trig) > 0 {
@@ -467,6 +522,12 @@ func (e *EvalCtx) call(n ECall) Val {
 			return boolVal(boolT(types.Implements(a.Dyn, t.Underlying().(*types.Interface))))
 		}
 		return boolVal(fmt.Sprintf("(and (not (= %s 0)) %s)", a.T, e.c.eng.implementsPred(e.c, a.T, t)))
+	case "typetag":
+		t := e.c.eng.parseType(e.pkg, exprString(n.Args[0]))
+		if t == nil {
+			e.fail("unknown type %s", exprString(n.Args[0]))
+		}
+		return intVal(e.c.eng.typeTag(t))
 	case "ptr": // ptr(x): payload reference of an interface, or the pointer itself
 		a := arg(0)
 		if a.K == KIface {
@@ -483,8 +544,20 @@ func (e *EvalCtx) call(n ECall) Val {
 	case "inv": // object invariant of the argument's static type
 		a := arg(0)
 		return boolVal(e.c.objInvOf(e, a))
+	case "lockinv": // monitor invariants of the locks declared on the argument's type
+		a := arg(0)
+		return boolVal(e.c.lockInvOf(e, a))
 	case "int":
 		return arg(0)
+	case "upd":
+		a, i, v := arg(0), arg(1), arg(2)
+		vt := v.T
+		if v.K == KIface {
+			vt = v.IVal
+		}
+		r := a
+		r.T = fmt.Sprintf("(store %s %s %s)", a.T, idxTerm(i, a.Len), vt)
+		return r
 	}
 	if pd, ok := e.c.eng.cs.Preds[n.F]; ok {
 		if len(pd.Params) != len(n.Args) {
@@ -639,11 +712,17 @@ func (c *FnCtx) applyContract(p *Path, fc *FuncContract, fn *ssa.Function, args 
 	for _, m := range fc.Modifies {
 		c.havocLoc(p, pre, m)
 	}
-	if !fc.Pure {
-		// clock may advance during any call
+	readsClock := false
+	for _, cl := range append(append([]Clause{}, fc.Ensures...), fc.EnsuresP...) {
+		if strings.Contains(cl.Src, "now()") {
+			readsClock = true
+		}
+	}
+	if readsClock {
+		// the callee takes a clock reading that its postcondition talks about: it becomes the latest reading
 		if p.now != "" {
 			t := c.fresh("now", "Int")
-			p.assume(fmt.Sprintf("(>= %s %s)", t, p.now))
+			p.assume(fmt.Sprintf("(and (>= %s %s) (<= %s 4611686018427387904))", t, p.now, t))
 			p.now = t
 		}
 	}
@@ -822,6 +901,29 @@ func (c *FnCtx) objInvOf(e *EvalCtx, a Val) string {
 	return "(and " + strings.Join(parts, " ") + ")"
 }
 
+func (c *FnCtx) lockInvOf(e *EvalCtx, a Val) string {
+	t := derefType(a.Typ)
+	if t == nil {
+		return "true"
+	}
+	tk := typeKey(t)
+	parts := []string{}
+	for _, mon := range c.eng.cs.Monitors {
+		if c.eng.qualType(mon.Pkg, mon.Type) != tk {
+			continue
+		}
+		se := e.sub(map[string]Val{mon.Self: a})
+		se.pkg = c.eng.pkgByDir(mon.Pkg)
+		for _, cl := range mon.Inv {
+			parts = append(parts, se.asBool(se.eval(cl.E)))
+		}
+	}
+	if len(parts) == 0 {
+		return "true"
+	}
+	return "(and " + strings.Join(parts, " ") + ")"
+}
+
 func (c *FnCtx) monitorOf(key string) *Monitor {
 	for _, m := range c.eng.cs.Monitors {
 		if c.eng.qualType(m.Pkg, m.Type)+"."+m.Mutex == key {
@@ -838,9 +940,11 @@ func (c *FnCtx) monitorAcquire(p *Path, key string, m Val) {
 		return
 	}
 	tk := c.eng.qualType(mon.Pkg, mon.Type)
-	for _, g := range mon.Guards {
-		c.havoc(&p.heap, tk+"."+g, m.T)
-		c.havoc(&p.heap, tk+".$"+g, m.T)
+	if c.mode == "mon" {
+		for _, g := range mon.Guards {
+			c.havoc(&p.heap, tk+"."+g, m.T)
+			c.havoc(&p.heap, tk+".$"+g, m.T)
+		}
 	}
 	self := Val{K: KPtr, T: m.T, Typ: types.NewPointer(c.eng.parseType(c.eng.pkgByDir(mon.Pkg), mon.Type))}
 	ec := &EvalCtx{c: c, p: p, env: map[string]Val{mon.Self: self}, heap: &p.heap, pkg: c.eng.pkgByDir(mon.Pkg)}
@@ -857,6 +961,7 @@ func (c *FnCtx) monitorRelease(p *Path, key string, m Val, mode int) {
 	if mon == nil || mode != 2 {
 		return
 	}
+	c.runGhostAt(p, "release:"+mon.Mutex)
 	self := Val{K: KPtr, T: m.T, Typ: types.NewPointer(c.eng.parseType(c.eng.pkgByDir(mon.Pkg), mon.Type))}
 	ec := &EvalCtx{c: c, p: p, env: map[string]Val{mon.Self: self}, heap: &p.heap, pkg: c.eng.pkgByDir(mon.Pkg)}
 	for i, cl := range mon.Inv {
